@@ -154,3 +154,125 @@ Lemma Sn_nowrites s gx : gs_writes gx = [] -> gs_pend_r gx = None -> gs_pend_p g
 Proof.
   intros H1 H2 H3 w [Hin|[[|] Hp]]; [rewrite H1 in Hin; destruct Hin|cbn in Hp; congruence|cbn in Hp; congruence].
 Qed.
+
+(** ---- an acknowledgement carried over a restart keeps its block's location ---- *)
+Lemma restore_all_length init : forall n bl sd ls, restore_blocks (fun _ _ => true) init n = (bl, sd, ls) ->
+  length bl = length init.
+Proof.
+  induction init as [|b rest IH]; intros n bl sd ls H; cbn in H; [inversion H; reflexivity|].
+  destruct (restore_blocks (fun _ _ => true) rest (S n)) as [[bl' sd'] ls'] eqn:E. inversion H; subst. cbn.
+  rewrite (IH _ _ _ _ E). reflexivity.
+Qed.
+
+Lemma restart_locs st : locs (restart_of st) = map bs_loc (snd st).
+Proof.
+  destruct (restore_blocks (fun _ _ => true) (snd st) 0) as [[bl sd] ls] eqn:E.
+  destruct (restart_shape _ _ _ _ E) as [R1 _]. unfold locs. rewrite R1, (restore_locs _ _ _ _ _ _ E).
+  rewrite (restore_all_length _ _ _ _ _ E), firstn_all. reflexivity.
+Qed.
+
+Lemma restart_tr st now : tr (init_sys (restart_of st) now) = 0.
+Proof.
+  destruct (restore_blocks (fun _ _ => true) (snd st) 0) as [[bl sd] ls] eqn:E.
+  destruct (restart_shape _ _ _ _ E) as [_ [_ [_ [R4 _]]]]. exact R4.
+Qed.
+
+Lemma carry_ack s gx w rest a ref lo now :
+  Bw s gx -> Sn s gx -> gs_writes gx = w :: rest -> In a (g_acks (gs_g gx)) -> covers w a ->
+  a_ref a = (fst (fst ref), snd (fst ref)) -> a_seed a = snd ref -> tr s <= a_abs a -> loc_at s (a_abs a) = Some lo ->
+  ack_for (init_sys (restart_of (gw_state w)) now) (g_inh (inh_list w (g_acks (gs_g gx)))) ref (Some lo).
+Proof.
+  intros [B1 _] HS Hw Ha Hcov Hr Hsd Hge Hloc.
+  assert (Hbase : gw_base_abs w <= a_abs a).
+  { specialize (B1 w). rewrite Hw in B1. specialize (B1 (or_introl eq_refl)). lia. }
+  exists (inh w a). cbn [g_inh gs_g g_acks]. split.
+  { unfold inh_list. apply in_map. apply filter_In. split; [exact Ha|apply Nat.leb_le; exact Hbase]. }
+  cbn [inh a_ref a_seed a_abs]. rewrite restart_tr. split; [exact Hr|]. split; [exact Hsd|]. split; [lia|].
+  intros lo0 E0. inversion E0; subst lo0. unfold loc_at in *. cbn [s_pbl init_sys]. rewrite restart_tr, restart_locs, Nat.sub_0_r.
+  destruct Hcov as [E|[_ [_ [_ [_ [_ [b [Hb _]]]]]]]]; [lia|]. cbv zeta in Hb.
+  assert (Hj : a_abs a - gw_base_abs w < length (snd (gw_state w))).
+  { assert (nth_error (blocks (restart_of (gw_state w))) (a_abs a - gw_base_abs w) <> None) as Hn by congruence.
+    apply nth_error_Some in Hn. pose proof (f_equal (@length loc) (restart_locs (gw_state w))) as Hl.
+    unfold locs in Hl. rewrite !map_length in Hl. lia. }
+  destruct (nth_error (snd (gw_state w)) (a_abs a - gw_base_abs w)) as [b'|] eqn:Eb; [|apply nth_error_None in Eb; lia].
+  rewrite nth_error_map, Eb. cbn [option_map].
+  assert (Hin : In w (gs_writes gx) \/ exists t, get_pend gx t = Some w) by (left; rewrite Hw; left; reflexivity).
+  destruct (HS w Hin _ _ Eb) as [H|H]; [lia|].
+  replace (gw_base_abs w + (a_abs a - gw_base_abs w)) with (a_abs a) in H by lia.
+  rewrite H in Hloc. exact Hloc.
+Qed.
+
+(** ---- the read-back check, on the replay's model state ---- *)
+Definition resolves_in (x : xst) (ref : rref) : bool :=
+  match ref_to_index (fst (fst ref)) (snd (fst ref)) (s_pbl (x_sys x)) with
+  | Ok (Some (_, sd)) => N.eqb sd (snd ref)
+  | _ => false
+  end.
+
+Definition small (x : xst) : bool :=
+  ((Z.of_nat (length (blocks (s_pbl (x_sys x)))) <? 65536) && (Z.of_nat (length (epochSeeds (s_pbl (x_sys x)))) <? 4294967296))%Z.
+
+Definition readable32 (objs e : sx) : bool :=
+  Z.eqb (sx_Z (sx_nth e 4)) 0 && sx_eqb (sx_nth e 5) (sx_nth objs (sx_nat (sx_nth e 1)))
+  && Z.eqb (sx_Z (sx_nth e 2)) 0 && Z.eqb (sx_Z (sx_nth e 3)) 0.
+
+Definition r_check (objs : sx) (x : xst) (l : lst) (e : sx) : bool :=
+  if (tag e =? 32)%Z then
+    small x &&
+    (if existsb (fun cr => Nat.eqb (c_key (fst cr)) (sx_nat (sx_nth e 1)) && c_old (fst cr) && resolves_in x (snd cr)) (l_cr l)
+     then readable32 objs e else true)
+  else true.
+
+(** where the monitor adds clause 1 / 4 *)
+Lemma mon_entry_viol_32b cfg objs ops m x z : tag x = 32%Z ->
+  In z (m_viol (mon_entry cfg objs ops m x)) ->
+  In z (m_viol m) \/ z = 5%Z \/
+  ((z = 1%Z \/ z = 4%Z) /\
+   existsb (fun c => Nat.eqb (c_key c) (sx_nat (sx_nth x 1)) && c_old c) (m_copies m) = true /\
+   readable32 objs x = false).
+Proof.
+  intros E. unfold mon_entry, readable32. rewrite E. cbv beta iota zeta. prj.
+  rewrite !in_app_iff. intros [H|[H|H]]; [left; exact H| |].
+  - match type of H with In _ (if ?c then _ else _) => destruct c; [|destruct H] end.
+    destruct H as [<-|[]]. auto.
+  - match type of H with In _ (if ?c then _ else _) => destruct c eqn:C; [|destruct H] end.
+    apply andb_prop in C. destruct C as [C1 C2]. apply Bool.negb_true_iff in C2.
+    destruct H as [<-|[]]. right. right. split; [destruct (Z.eqb (m_prev m) 1); auto|]. split; [exact C1|exact C2].
+Qed.
+
+Definition no14 (z : Z) : Prop := z <> 1%Z /\ z <> 4%Z.
+
+Lemma entry_no14 o cfgsx objs ops m l x gx e z :
+  G o (x_sys x) gx -> Lkg (fun _ => True) m l (x_sys x) gx -> r_check objs x l e = true ->
+  In z (m_viol (mon_entry cfgsx objs ops m e)) -> In z (m_viol m) \/ no14 z.
+Proof.
+  intros Hg HL Hck Hin.
+  destruct (Z.eq_dec (tag e) 32) as [E32|N32].
+  - destruct (mon_entry_viol_32b _ _ _ _ _ _ E32 Hin) as [H|[->|[Hz [Howed Hnr]]]]; [left; exact H|right; split; discriminate|].
+    exfalso. unfold r_check in Hck. rewrite E32 in Hck. cbn [Z.eqb Pos.eqb] in Hck.
+    apply andb_prop in Hck. destruct Hck as [Hsm Hck].
+    (* an owed copy of the key *)
+    apply existsb_exists in Howed. destruct Howed as [cp [Hcp Hk]].
+    rewrite <- (lk_cr _ _ _ _ _ HL) in Hcp. apply in_map_iff in Hcp. destruct Hcp as [[cp' ref] [Heq Hcr]].
+    cbn [fst] in Heq. subst cp'.
+    destruct (lk_ack _ _ _ _ _ HL cp ref Hcr I) as [a [Ha [Hr1 [Hr2 [Hge _]]]]].
+    (* its acknowledgement resolves in the model *)
+    assert (Hres : resolves_in x ref = true).
+    { pose proof Hg as [[[[_ [Gi _]] _] _] _].
+      pose proof (gi_acks _ _ _ Gi) as F. rewrite Forall_forall in F.
+      destruct (F a Ha) as [Ev|Lv]; [unfold evicted in Ev; unfold tr in Hge; lia|].
+      apply andb_prop in Hsm. destruct Hsm as [S1 S2]. apply Z.ltb_lt in S1. apply Z.ltb_lt in S2.
+      pose proof (live_pos_lt _ _ _ Lv) as Hpos. unfold pos in Hpos.
+      assert (H32 : (N.of_nat (a_ep a - g_pe (gs_g gx)) < 2 ^ 32)%N) by (change (2 ^ 32)%N with 4294967296%N; lia).
+      assert (H16 : (Z.of_nat (a_last a - a_abs a) < 2 ^ 16)%Z).
+      { destruct Lv as [Lge _ _ Llast _ _]. rewrite (gi_el _ _ _ Gi) in Llast.
+        apply elayout_range in Llast. change (2 ^ 16)%Z with 65536%Z. lia. }
+      destruct (G_acks_resolve o _ _ Hg a Ha H32 H16) as [Ev|[Q _]]; [unfold tr in Hge; lia|].
+      unfold resolves_in. rewrite Hr1 in Q. cbn [fst snd] in Q. rewrite Q, Hr2. apply N.eqb_refl. }
+    assert (Hex : existsb (fun cr => Nat.eqb (c_key (fst cr)) (sx_nat (sx_nth e 1)) && c_old (fst cr) && resolves_in x (snd cr)) (l_cr l) = true).
+    { apply existsb_exists. exists (cp, ref). split; [exact Hcr|]. cbn [fst snd]. rewrite Hk, Hres. reflexivity. }
+    rewrite Hex in Hck. congruence.
+  - destruct (Z.eq_dec (tag e) 30) as [E30|N30].
+    + destruct (mon_entry_viol_30 _ _ _ _ _ _ E30 Hin) as [H|[->|[_ [_ [[-> _]|[-> _]]]]]]; [left; exact H| | |]; right; split; discriminate.
+    + rewrite (mon_entry_viol_other _ _ _ _ _ N30 N32) in Hin. left. exact Hin.
+Qed.
